@@ -102,7 +102,8 @@ def cases(draw):
             # overlapping patterns: ahead of every event a second one is listed whose pattern matches an inner part of
             # the same prompt (it starts later, ends earlier and, through a look-ahead, becomes matchable at the same
             # moment): the match that starts first in the stream wins, so these must never fire
-            'shadow': draw(st.booleans()), 'codec_errors': codec_errors}
+            'shadow': draw(st.booleans()), 'codec_errors': codec_errors,
+            'use_poll': draw(st.booleans())}
 
 
 class Responder(object):
@@ -256,6 +257,8 @@ def check_case(case, col=None):
             kw['searchwindowsize'] = case['sws']
         if case.get('codec_errors'):
             kw['codec_errors'] = case['codec_errors']
+        if case.get('use_poll'):
+            kw['use_poll'] = True
         t0 = time.time()
         with guard('run()', allow=()):
             res = pexpect.run(line, timeout=T, withexitstatus=case['withexit'], events=events,
